@@ -1,10 +1,12 @@
 import Driver.Reader
+import Driver.Producer
 open Driver
 
 def handle (line : String) : String :=
   match line.trimAscii.toString.splitOn " " with
   | ["reader", buf, ops] => readerLine buf ops
   | ["reader", buf] => readerLine buf ""
+  | ["producer", proto, rm, seed, n, events] => producerLine proto rm seed n events
   | _ => "bad-op"
 
 partial def loop (h : IO.FS.Stream) (out : IO.FS.Stream) : IO Unit := do
